@@ -2,7 +2,7 @@
    They hold for ALL forecasting kernels (lfit / lpred abstract), series and histories. *)
 From Coq Require Import ZArith QArith List Bool.
 Require Import SkV.Lib.Base SkV.C09.Model SkV.C09.Cases SkV.C09.Proofs SkV.C10.Model SkV.C10.Cases
-        SkV.C10.Proofs SkV.C10.Comp SkV.C10.Site SkV.C10.Bridge.
+        SkV.C10.Proofs SkV.C10.Comp SkV.C10.SmLib SkV.C10.Site SkV.C10.Bridge.
 Require SkV.C01.Model.
 Import ListNotations.
 Open Scope Z_scope.
@@ -230,6 +230,27 @@ Theorem C10_site_deseasonalizer_update_keeps_parameters :
   gen_conditional_deseasonalizer_inherits_update = true.
 Proof. exact (conj bridge_deseasonalizer_update bridge_conditional_deseasonalizer_inherits_update). Qed.
 
+(* _StatsModelsAdapter._predict, regenerated from base/adapters/_statsmodels.py: the forecasts are the
+   wrapped statsmodels model's values at the positions cutoff + h - (first remembered time stamp),
+   labelled cutoff + h: made from the forecaster's CUTOFF, wherever the model was last fitted *)
+Theorem C10_site_statsmodels_forecasts_positioned_by_cutoff :
+  forall (S : Type) (get_y : S -> series) (get_cutoff : S -> Z) (get_sm_model : S -> sm_results)
+         (s : S) (fh : list Z),
+    sorted_lt fh ->
+    snd (get_sm_model s) = zfirst (times (get_y s)) ->
+    gen_sm_predict S get_y get_cutoff get_sm_model s fh =
+    (s, BPred (map (fun h => (get_cutoff s + h,
+                             fst (get_sm_model s) (get_cutoff s + h - zfirst (times (get_y s))))) fh)).
+Proof. exact bridge_sm_predict. Qed.
+
+(* its hypotheses are satisfiable: memory 5..8, cutoff 7 (restored below the end of the memory), model
+   value at position p = 10 p, horizon [1; 3] -> positions 3 and 5 of the model, labels 8 and 10 *)
+Example C10_site_statsmodels_nonvacuous :
+  gen_sm_predict (series * Z) fst snd (fun _ => (fun p => inject_Z (10 * p), 5))
+                 ([(5, 1 # 1); (6, 2 # 1); (7, 3 # 1); (8, 4 # 1)], 7) [1; 3] =
+  (([(5, 1 # 1); (6, 2 # 1); (7, 3 # 1); (8, 4 # 1)], 7), BPred [(8, inject_Z 30); (10, inject_Z 50)]).
+Proof. vm_compute. reflexivity. Qed.
+
 Print Assumptions C10_memory_after_every_call.
 Print Assumptions C10_memory_after_updates.
 Print Assumptions C10_refit_on_update_equals_fresh_fit.
@@ -251,6 +272,7 @@ Print Assumptions C10_site_composite_update_predict_restores_cutoff.
 Print Assumptions C10_site_detrender_update_forwards_data_and_flag.
 Print Assumptions C10_site_detrender_update_no_param.
 Print Assumptions C10_site_deseasonalizer_update_keeps_parameters.
+Print Assumptions C10_site_statsmodels_forecasts_positioned_by_cutoff.
 
 (* Non-vacuity: a history with overlapping data, a refit, a no-parameter update and an
    update_predict over a sliding splitter, in the semantics of the leaf double; the snapshots
